@@ -161,7 +161,15 @@ BlockChecks(e, BB, UU) ==
                           n == T3(e.hdr.needed)
                       IN ~(LimbIsSmall(n) /\ LimbToNat(n) + 1 >= ref /\ LimbToNat(n) <= ref + 1)
                 THEN {Bad(e, "C08", "requirement-differs-from-definition")} ELSE {}
-    IN c01 \cup c13 \cup c13f \cup c13r \cup c03 \cup c02 \cup c04 \cup c07 \cup c06 \cup pan \cup c08w \cup c08p \cup c08n \cup c08k
+        \* C05 on chains that wrap the retention window: the tip never gets lower, only moves to a higher
+        \* block, and a valid block extending the tip becomes the tip
+        c05 == (IF ~IsPanic(e.res) /\ T.tiph < obs.tiph
+                THEN {Bad(e, "C05", "tip-height-decreased")} ELSE {})
+               \cup (IF adopted /\ obs.tip # "" /\ e.h <= obs.tiph
+                     THEN {Bad(e, "C05", "tip-moved-to-chain-not-longer")} ELSE {})
+               \cup (IF honest /\ ~IsPanic(e.res) /\ ~(adopted /\ T.tiph = e.h)
+                     THEN {Bad(e, "C05", "valid-extension-of-the-tip-not-adopted")} ELSE {})
+    IN c01 \cup c13 \cup c13f \cup c13r \cup c03 \cup c02 \cup c04 \cup c05 \cup c07 \cup c06 \cup pan \cup c08w \cup c08p \cup c08n \cup c08k
 
 (* ---- pool (C14) and wallet (C19) checks on any observed state --------------------- *)
 PoolChecks(e, st, P, u, tiph) ==
